@@ -302,7 +302,8 @@ class ScalarKernel(Kernel):
             if self.negpost is not None:
                 bad = self.negpost(vs, p.ret)
                 res.queries.append(Query("%s/path%d" % (self.kid, pi), "property", "postcondition on path %d" % pi,
-                                         p.defs + p.pc + [bad], names, timeout_s=self.timeout_s, extra=p.apc))
+                                         p.defs + p.pc + [bad], names, timeout_s=self.timeout_s, extra=p.apc,
+                                         strategies=getattr(self, "prop_strategies", None)))
         # one reachability witness per kernel: some path returns
         if paths:
             alts = [z3.And(p.defs + p.pc + p.apc) if (p.defs + p.pc + p.apc) else z3.BoolVal(True) for p in paths]
@@ -712,6 +713,8 @@ class Dragonbox(ScalarKernel):
         self.negpost = self._negpost
         self.cases_fn = self._cases
         self.nbits = bits
+        # wide rational comparisons: bit-blasting first (the integer encoding rarely finishes here)
+        self.prop_strategies = (("cvc5", 40), ("z3-new", 40), ("cvc5-int", 30), ("cvc5", None), ("z3-new", None))
         if shorter:
             # the binade's single power-of-two input: a constant, so MIR execution and the oracle
             # both fold to constants (exhaustive over the 254 / 2046 such inputs when swept)
